@@ -72,6 +72,10 @@ def check(run):
     tlaps(run)
     ef.eval_model_and_replay(run, "dispatch", ef.mceval_cfg("c08-dispatch", family="dispatch"), "C08", sample_filter=lambda r: True)
     histories(run, 4 if thorough else 3)
+    run.rules.append("levels holding both associativities (every user level of the 28-operator table; 110 and 120 together with + - * / %): the grammar leaves the grouping of "
+                     "`x L y R z` unspecified, but it may not depend on the operands' shape: for every ordered pair of such operators the tree of the base sentence and of the three variants "
+                     "(one operand replaced by a chain of the next tighter operator, or parenthesised) are recorded from the real parser and judged by TLC (TraceShape: variant = base with the operand substituted)")
+    pf.shape_independence(run, "c08-mix", "C08", OPS_FILE)
     pf.model_and_replay(run, "user-pairs", pf.pratt_cfg("c08-upairs", lazy=False, source="UPairSource", firstset="UPairSet", table="BigTable"), "C08", "C08", ops_file=OPS_FILE)
     pf.trace_validate(run, "user-ops", 6000 if thorough else 800, run.seed, 0, "C08", "C08", ops_file=OPS_FILE, table="BigTable")
     run.rules.append("Context API (spec/ContextApi.tla): operation histories on real Contexts in both directions (see C06); here the mismatches whose name was last written as a function "
